@@ -229,6 +229,49 @@ def stage_oracle(ctx: Ctx, progs):
             ctx.violation(f'sub-comment-lost|{name}', 'a comment outside every substituted node disappeared', {**rec, 'lost': list(lost)[:4], 'after': work.src})
 
 
+def stage_slots(ctx: Ctx):
+    """deterministic: how ONE template mixes single-node slots and slice slots. A single capture that is itself a sequence stays one element whatever stands to
+    its right or left (the slice mode of a slot is per slot); __FSS_tag splices a captured sequence as elements, __FSO_tag puts it as one element, in list,
+    call-argument and class-base positions. Expected sources are written out."""
+    import fst
+    from fst.match import M, MList, MQSTAR, MAssign, MCall, MTuple
+    heads = ['(p, q)', '[p, q]', '{p, q}', 'x', 'f(y)', '(p,)', '(p, (q, r))', '[]']
+    cases = []
+    for h in heads:
+        lst = lambda: MList(elts=[M(h=...), MQSTAR(rest=...)])
+        cases += [(f'[{h}, a, b]', lst, '[__FST_h, 0, __FST_rest]', f'[{h}, 0, a, b]'), (f'[{h}, a, b]', lst, 'g(__FST_h, 0, __FST_rest)', f'g({h}, 0, a, b)'),
+                  (f'[{h}, a, b]', lst, '[__FST_rest, 0, __FST_h]', f'[a, b, 0, {h}]'), (f'[{h}, a, b]', lst, '(__FST_h, __FST_rest, __FST_h)', f'({h}, a, b, {h})'),
+                  (f'[{h}]', lst, '[__FST_h, 0, __FST_rest]', f'[{h}, 0]'), (f'[{h}, a]', lst, '{__FST_h: 1, **z}', f'{{{h}: 1, **z}}' if not h.startswith(('[', '{')) else None),
+                  (f'w = [{h}, a, b]', lst, 'k(u, __FST_rest, v=__FST_h)', f'w = k(u, a, b, v={h})')]
+        asg = lambda: MAssign(value=M(v=...))
+        elems = {'(p, q)': 'p, q', '[p, q]': 'p, q', '{p, q}': 'p, q', '(p,)': 'p', '(p, (q, r))': 'p, (q, r)'}.get(h)
+        cases += [(f'r = {h}', asg, 'f(x, __FSO_v)', f'f(x, {h})'), (f'r = {h}', asg, '[x, __FSO_v, y]', f'[x, {h}, y]')]
+        if elems:
+            cases += [(f'r = {h}', asg, 'f(x, __FSS_v)', f'f(x, {elems})'), (f'r = {h}', asg, '[x, __FSS_v]', f'[x, {elems}]'), (f'r = {h}', asg, 'f(__FSS_v, y)', f'f({elems}, y)'),
+                      (f'r = {h}', asg, 'class K(x, __FSS_v): pass', f'class K(x, {elems}): pass'), (f'r = {h}', asg, 'f(__FSS_v, k=1)', f'f({elems}, k=1)')]
+    for src, mk, template, want in cases:
+        if want is None:
+            continue
+        for nested in (False, True):
+            if nested and ('[[' in src or '[]' in src):
+                continue      # the captured head is itself a list the pattern matches: with nested=True it is rewritten too (covered by the reference oracle)
+            root = fst.FST(src, 'exec')
+            rec = {'src': src, 'template': template, 'nested': nested, 'expected': want}
+            try:
+                root.sub(mk(), template, nested)
+            except Exception as e:
+                ctx.violation(f'slots-raise|{type(e).__name__}', 'sub() raised on a slot combination whose result is a valid program', {**rec, 'error': repr(e)[:300]})
+                continue
+            ctx.tick(('slots', src, template, nested), 'sub:slots')
+            d = reparse_diffs(root)
+            if d:
+                ctx.violation('sub-c01|slots', 'the tree after sub() does not re-parse to itself', {**rec, 'after': root.src, 'diffs': d})
+                continue
+            d = cmp_ast(root.a, ast.parse(want), positions=False, ctx=False)
+            if d:
+                ctx.violation('sub-struct|slots', 'single-node / slice slots of one template were not filled each in its own mode', {**rec, 'after': root.src, 'diffs': d})
+
+
 def stage_loop(ctx: Ctx):
     """loop=N: per location at most N successive substitutions while the node still matches; the counter is per location"""
     import fst
@@ -330,6 +373,7 @@ def run(ctx: Ctx):
     progs = corpus(ctx.rng, gen=ctx.scale(20, 150))
     run_guarded(ctx, stage_oracle, progs)
     run_guarded(ctx, stage_loop)
+    run_guarded(ctx, stage_slots)
     run_guarded(ctx, stage_corr, progs)
 
 
